@@ -231,7 +231,8 @@ func (w *World) trigFn(gen int, t TrigSpec) func(r column.Reader) {
 			switch {
 			case kind.Float():
 				if kind == KFloat32 {
-					ev.V = Val{B: uint64(float32bits(float32(r.Float())))}
+					// Reader.Float() is a float64: the conversion there and back quiets a signalling NaN
+					ev.V = Val{B: uint64(float32bits(float32(r.Float()))), Arith: true}
 				} else {
 					ev.V = Val{B: float64bits(r.Float())}
 				}
